@@ -156,7 +156,11 @@ func runT(r *kernel.Run, s TSpec) *tResult {
 	binary.LittleEndian.PutUint64(res.CPRNGKey[:8], s.LibSeed)
 	copy(res.CPRNGKey[8:], "gabi-verif-cprng")
 	w := newWorld(r, s.ValSeed)
-	key := kernel.GetKey(s.Key)
+	// a fresh public key object per run: lazily filled caches inside a shared key would otherwise
+	// be warm after the first run of the process and first-use races could never be seen again
+	shared := kernel.GetKey(s.Key)
+	pkCopy := *shared.Pk
+	key := &kernel.Key{Name: shared.Name, Bits: shared.Bits, Z128: shared.Z128, Pk: &pkCopy, Sk: shared.Sk}
 	res.Key = key
 	pk := key.Pk
 	ra := w.RA(key)
@@ -325,13 +329,21 @@ func runT(r *kernel.Run, s TSpec) *tResult {
 			}
 			close(start)
 			wg.Wait()
+			// library goroutines started by this phase (safe prime workers winding down) must be gone
+			// before anything else happens: later runs install hooks, which those goroutines read
+			for wait := 0; wait < 400 && libGoroutines() > 0; wait++ {
+				time.Sleep(25 * time.Millisecond)
+			}
+			if n := libGoroutines(); n > 0 {
+				res.Errors = append(res.Errors, fmt.Sprintf("%d safe prime generator goroutines still alive 10 s after parallel key generation returned", n))
+			}
 			r.Probe("free-running-phases")
 		} else {
 			prevReader := cryptorand.Reader
 			cryptorand.Reader = &kernel.SimReader{S: sc, Fallback: prevReader}
-			gabi.VerifInstallHooks(gabi.VerifHooks{Yield: sc.Yield, Buggify: sc.BuggifyAt})
+			setHooks(&hookSet{yield: sc.Yield, buggify: sc.BuggifyAt})
 			sc.Run(fns)
-			gabi.VerifInstallHooks(gabi.VerifHooks{})
+			setHooks(nil)
 			cryptorand.Reader = prevReader
 		}
 
